@@ -161,6 +161,33 @@ func (ex *Exec) callVF(caller *frame, fn *ssa.Function, args []Value) (Value, bo
 			m = msg
 		}
 		return Tuple{smt.BoolC(pk), smt.BoolC(rt), m}, true
+	case "Par":
+		if ex.accessLog == nil {
+			ex.accessLog = &AccessLog{}
+		}
+		ex.accessLog.tag = 1
+		ex.call(caller, args[0], nil)
+		ex.accessLog.tag = 2
+		ex.call(caller, args[1], nil)
+		ex.accessLog.tag = 0
+		return nil, true
+	case "Track":
+		if ex.accessLog == nil {
+			ex.accessLog = &AccessLog{}
+		}
+		ex.accessLog.tag = cint(0)
+		return nil, true
+	case "Interference", "InterferenceG":
+		if ex.accessLog == nil {
+			return smt.BVC(64, 0), true
+		}
+		cs := ex.accessLog.conflicts(name == "Interference")
+		for i, c := range cs {
+			if i < 5 {
+				P.event(Event{Kind: EvObserve, Label: "interference", Detail: c})
+			}
+		}
+		return smt.BVC(64, uint64(len(cs))), true
 	case "KnownText":
 		if isOpaque(args[0]) {
 			return knownText(args[0]), true
